@@ -95,6 +95,20 @@ class C13SameSide(C13):
         return [[("cbind", 0, "X", "A"), ("cbind", 1, "X", "A"), ("open", 0, "m"), ("open", 1, "m")]]
 
 
+class C13Reopen(C13):
+    """a connection that closed its mailbox opens again on the same connection (the server accepts a second open once
+    the first was closed; its own close is then refused): the new subscription must end with the connection"""
+
+    def configure(self, tier):
+        C13.configure(self, tier)
+        X = "X"
+        binds = [[(X, "A")], [(X, "A"), (X, "B")], [(X, "B")]]
+        self.driver = Driver(binds, names=("1",), mids=("m",), msgs=(("p", "00", "i1"),),
+                             kinds=("bind", "claim", "open", "add", "close", "drop"), close_forms=("bare", "unopened"),
+                             max_adds=1, max_drops=1, max_conns=2 if tier == "quick" else 3, reopen_after_close=True)
+        self.depth = 6 if tier == "quick" else 8
+
+
 class C13Restart(C13):
     """rows written by a previous process must be swept too: file-backed, one restart allowed before quiescence"""
 
@@ -110,6 +124,8 @@ class C13Restart(C13):
 def make_spec(tier, name=None):
     if name == "c13-sameside":
         return C13SameSide(tier)
+    if name == "c13-reopen":
+        return C13Reopen(tier)
     return C13Restart(tier) if name == "c13-restart" else C13(tier)
 
 
@@ -128,6 +144,8 @@ def run(pid, tier, seed, args):
     return run_specs(pid, tier, seed, args, [("c13", spec, spec.depth, 60 if tier == "quick" else 1200),
                                              ("c13-restart", spec2, spec2.depth, 40 if tier == "quick" else 600),
                                              ("c13-sameside", make_spec(tier, "c13-sameside"), make_spec(tier, "c13-sameside").depth,
+                                              30 if tier == "quick" else 400),
+                                             ("c13-reopen", make_spec(tier, "c13-reopen"), make_spec(tier, "c13-reopen").depth,
                                               30 if tier == "quick" else 400)], rule=RULE,
                      extra_cov=cov, extra_viols=viols, extra_samples=[{"timed_scenario": samples[1]}])
 
